@@ -21,7 +21,7 @@ RUNS = {"quick": 20000, "thorough": 700000}
 WALL = {"quick": 280, "thorough": 3500}
 RULE = ("one run = GFA1 (with lengths and specified overlaps) or GFA2 document, scheduled delivery, "
         "conversion, restart at vlevel 3, conversion back; distinct = distinct (document digest, how) pairs")
-PROBES = ["gfa1_to_gfa2", "gfa2_to_gfa1", "asym_cigar", "containment_offset",
+PROBES = ["dollar_in_view", "gfa1_to_gfa2", "gfa2_to_gfa1", "asym_cigar", "containment_offset",
           "path_reversed_link", "circular_path", "single_segment_path", "named_edge", "unnamed_edge",
           "internal_edge_dropped", "line_conversion_refused", "there_and_back", "self_link"]
 
@@ -102,6 +102,12 @@ def gen(streams, tier, i):
         k["overlap"] = "asym"
     if src == "gfa2":
         k["p_self"] = 0.0
+    view_only = False
+    if src == "gfa1" and cfg.random() < 0.15:
+        # an arm for the GFA2 *view* only: overlaps may cover a whole segment there (as a document this is
+        # ambiguous between dovetail and containment, so the conversion round trip is not judged)
+        k["lens"] = "full"
+        view_only = True
     doc = G.gen_doc(streams.get("document"), k, src)
     lines = doc["lines"]
     if src == "gfa2":
@@ -123,7 +129,7 @@ def gen(streams, tier, i):
     sr = streams.get("schedule")
     order, mode = hist.schedule(sr, lines)
     how = cfg.choice(["to_s", "to_s", "to_obj", "per_line"])
-    return {"cfg": {"version": src, "order": mode, "how": how, "vlevel": cfg.choice([1, 2, 3])},
+    return {"cfg": {"version": src, "order": mode, "how": how, "vlevel": cfg.choice([1, 2, 3]), "view_only": view_only},
             "lines": order, "ops": [{"op": "convert"}]}
 
 
@@ -172,10 +178,35 @@ def seglens(m):
     return dict((r.pos[0], m.seglen(r.pos[0])) for r in m.recs if r.rt == "S")
 
 
+def view_oracle(m, g, L, st):
+    """the GFA2 view of every connected L / C line: sid1 sid2 beg1 end1 beg2 end2 alignment"""
+    for l in g.edges:
+        if l.virtual or l.record_type not in ("L", "C"):
+            continue
+        pos = ob.line_text(l).split("\t")
+        pos = pos[1:6] if l.record_type == "L" else pos[1:7]
+        want = l_to_e(pos, L[pos[0]], L[pos[2]]) if l.record_type == "L" else c_to_e(pos, L[pos[0]], L[pos[2]])
+        o = core.call(lambda: [str(l.sid1), str(l.sid2), str(l.beg1), str(l.end1), str(l.beg2), str(l.end2), str(l.alignment)])
+        st.count("oracle.gfa2_view")
+        if not o.ok:
+            raise core.Violation("view-raised", "GFA2 view of %r raised %s: %s" % (ob.line_text(l), o.excname, str(o.exc)[:200]),
+                                 exc=o.excname, frame=o.frame)
+        if o.value != want:
+            names = ["sid1", "sid2", "beg1", "end1", "beg2", "end2", "alignment"]
+            bad = [n for n, a, b in zip(names, o.value, want) if a != b]
+            raise core.Violation("view-differs", "GFA2 view of %r: %r, expected %r" % (ob.line_text(l), o.value, want),
+                                 field=bad[0], rt=l.record_type)
+        if any(x.endswith("$") for x in want):
+            st.count("probe.dollar_in_view")
+
+
 def run_1_to_2(m, g, cfg, st):
     st.count("probe.gfa1_to_gfa2")
     L = seglens(m)
     if any(v is None for v in L.values()):
+        return
+    view_oracle(m, g, L, st)
+    if cfg.get("view_only"):
         return
     t = convert_text(g, "gfa2", cfg["how"])
     st.count("oracle.conversion_succeeds")
